@@ -146,6 +146,7 @@ type GenCfg struct {
 	LazyBreak bool
 	BuiltinOnly bool // no harness-registered modifiers / helpers (they allocate)
 	NoRaw       bool // no |raw prints (values that bypass the bound tags)
+	NoIfOK      bool // no if-ok nodes (the helper vok is harness-registered and allocates)
 }
 
 type gen struct {
@@ -309,6 +310,11 @@ func (g *gen) cond() Cond {
 			if !ok {
 				continue
 			}
+			if p.K != kMissing && !g.cfg.BuiltinOnly && g.r.Rng.Intn(12) == 0 { // (not for C19: strconv allocates its error value)
+				// a literal of ANOTHER kind than the operand: the static inspector answers false, a code-generated
+				// one returns its strconv error (both are what the comparison "under the left operand's type" means)
+				lit = pick(g.r, []string{`"abc"`, "0.5", "-1", "true", "1e3", `"7"`, "007"})
+			}
 			op := pick(g.r, ops6)
 			if p.K == kBool || p.K == kBytes {
 				op = pick(g.r, []string{"==", "!="})
@@ -416,6 +422,9 @@ func (g *gen) node(depth int) TNode {
 		case 2, 3, 4:
 			return g.print()
 		case 5:
+			if depth < c.MaxDepth && !c.BuiltinOnly && !c.NoIfOK && g.r.Rng.Intn(5) == 0 {
+				return g.ifok(depth)
+			}
 			if depth < c.MaxDepth {
 				n := If{C: g.cond(), Then: g.block(depth + 1), HasElse: g.r.Rng.Intn(2) == 0}
 				if n.HasElse {
@@ -492,6 +501,36 @@ func (g *gen) node(depth int) TNode {
 		}
 	}
 	return Text{g.mark()}
+}
+
+// ifok: {% if v, ok := vok(arg).(static); ok %} — the helper yields the text of its first argument; both
+// variables stay assigned after the block.
+func (g *gen) ifok(depth int) TNode {
+	n := IfOK{Var: pick(g.r, []string{"x1", "x2", "ov"}), OK: pick(g.r, []string{"ok1", "okv"}), Hlp: "vok", Ins: "static"}
+	switch g.r.Rng.Intn(8) {
+	case 0:
+		n.Ins = "" // no inspector named and none registered for the variable: ErrUnknownInspector
+	case 1:
+		n.Hlp = "vnosuch" // ErrCondHlpNotFound
+	}
+	n.AsKW = n.Ins != "" && g.r.Rng.Intn(3) == 0
+	n.Not = g.r.Rng.Intn(3) == 0
+	switch g.r.Rng.Intn(4) {
+	case 0:
+		n.Args = []string{`"` + pick(g.r, []string{"lit", "Q"}) + `"`}
+	case 1:
+		n.Args = []string{g.anyPath().Path, g.modArg()}
+	case 2:
+		n.Args = nil
+	default:
+		n.Args = []string{g.anyPath().Path}
+	}
+	n.Then = g.block(depth + 1)
+	if g.r.Rng.Intn(2) == 0 {
+		n.HasElse = true
+		n.Else = g.block(depth + 1)
+	}
+	return n
 }
 
 func (g *gen) cloop(depth int) TNode {
@@ -668,11 +707,8 @@ func (g *gen) ctxset() TNode {
 		// assignment to a counter-loop variable inside its body; literal sources only: the variable is used as
 		// an index ([i]) and the code-generated test inspector (a dependency) panics on a negative index
 		n.Var = g.cvars[g.r.Rng.Intn(len(g.cvars))]
-		if g.r.Rng.Intn(2) == 0 {
-			n.Src = strconv.Itoa(g.r.Rng.Intn(4))
-		} else {
-			n.Src = `"` + pick(g.r, []string{"x", "1", "zz"}) + `"`
-		}
+		// (numbers only: a non-numeric index is an error of the inspectors' own strconv.Atoi, outside the model)
+		n.Src = strconv.Itoa(g.r.Rng.Intn(4))
 		return n
 	}
 	if g.cfg.BuiltinOnly {
